@@ -5,6 +5,11 @@ check(s) that are recorded as catching it in meta.json (sanitizer stages skipped
 import json, glob, os, subprocess, sys
 full = "--full" in sys.argv
 sel = [a for a in sys.argv[1:] if not a.startswith("--")]
+# lanes (tools/regress_lanes.sh): a scratch copy of the crate and of this directory, and a slice i/N
+REPO = os.environ.get("REGRESS_REPO", "/repo")
+VERIF = os.environ.get("REGRESS_VERIF", "/verif")
+part = [a for a in sys.argv[1:] if a.startswith("--part=")]
+pi, pn = (int(x) for x in part[0][7:].split("/")) if part else (0, 1)
 env = dict(os.environ)
 if not full:
     env["VERIF_SKIP_BUILDS"] = "miri,fuzz"
@@ -12,7 +17,8 @@ bad = []
 def sh(cmd, **kw):
     return subprocess.run(cmd, shell=True, stdout=subprocess.PIPE, stderr=subprocess.STDOUT, text=True, **kw)
 try:
-    dirs = sorted(glob.glob("/verif/seeded/*/"), key=lambda d: os.path.basename(d.rstrip("/")))
+    dirs = sorted(glob.glob(VERIF + "/seeded/*/"), key=lambda d: os.path.basename(d.rstrip("/")))
+    dirs = [d for i, d in enumerate(dirs) if i % pn == pi]
     for d in dirs:
         name = os.path.basename(d.rstrip("/"))
         if sel and not any(x in name for x in sel):
@@ -24,17 +30,17 @@ try:
             print(name, "no check recorded"); continue
         target = meta.get("breaks")
         prop = target if target in props else props[0]
-        sh("git -C /repo checkout -- .")
-        r = sh("git -C /repo apply %s" % patch)
+        sh("git -C %s checkout -- ." % REPO)
+        r = sh("git -C %s apply %s" % (REPO, patch))
         if r.returncode != 0:
             print(name, "PATCH DOES NOT APPLY"); bad.append(name); continue
-        r = sh("./check %s --tier quick" % prop, cwd="/verif", env=env)
-        sh("git -C /repo checkout -- .")
+        r = sh("./check %s --tier quick" % prop, cwd=VERIF, env=env)
+        sh("git -C %s checkout -- ." % REPO)
         ok = r.returncode == 1 and "VIOLATION property=%s" % prop in r.stdout
         print("%-48s %s exit=%d %s" % (name, prop, r.returncode, "caught" if ok else "MISSED"), flush=True)
         if not ok:
             bad.append(name)
 finally:
-    sh("git -C /repo checkout -- .")
+    sh("git -C %s checkout -- ." % REPO)
 print("missed:", bad)
 sys.exit(1 if bad else 0)
